@@ -29,13 +29,37 @@ let show (f : 'a -> string) (r : ('a * coq_N) res) : string * string =
 let ctx_sps : sps list ref = ref []
 let ctx_pps : pps list ref = ref []
 
+(* per reference HEVC SPS: the HEVCPicTimingParams hevc.ParseSEINalu derives from it (None: no VUI) *)
+let ctx_hevcpt : C16Model.hpt_params option list ref = ref []
+
+let hevcpt_of (s : string) : C16Model.hpt_params option =
+  if s = "-" then None
+  else match L.map int_of_string (split_on ':' s) with
+    | [fl; la; lb; lc; ld] ->
+      let bit k = (fl lsr k) land 1 = 1 in
+      Some { hp_ffi = bit 0; hp_cpb = bit 1; hp_subpic = bit 2; hp_subpic_in_pt = bit 3;
+             hp_la = n_of_int la; hp_lb = n_of_int lb; hp_lc = n_of_int lc; hp_ld = n_of_int ld }
+    | _ -> failwith "bad hevcpt"
+
+let nth_opt (l : 'a list) (i : int) : 'a option =
+  if i < 0 || i >= L.length l then None else Some (L.nth l i)
+
+let sei_result (r : (coq_N * bool) res) : string * string =
+  match r with
+  | Ok (n, false) -> ("ok", string_of_int (int_of_n n))
+  | Ok (_, true) -> ("err", "")
+  | Err -> ("err", "")
+  | Panic -> ("panic", "")
+  | OutOfFuel -> ("hang", "")
+
 let set_ctx (kind : string) (hexes : string) : unit =
-  let units = L.map bytes_of_hex (split_on ',' hexes) in
+  let units () = L.map bytes_of_hex (split_on ',' hexes) in
   match kind with
   | "avcsps" ->
-    ctx_sps := L.concat (L.map (fun u -> match c16_parse_sps true u with Ok s -> [s] | _ -> []) units)
+    ctx_sps := L.concat (L.map (fun u -> match c16_parse_sps true u with Ok s -> [s] | _ -> []) (units ()))
   | "avcpps" ->
-    ctx_pps := L.concat (L.map (fun u -> match c16_parse_pps (chroma_lookup !ctx_sps) u with Ok p -> [p] | _ -> []) units)
+    ctx_pps := L.concat (L.map (fun u -> match c16_parse_pps (chroma_lookup !ctx_sps) u with Ok p -> [p] | _ -> []) (units ()))
+  | "hevcpt" -> ctx_hevcpt := L.map hevcpt_of (split_on ',' hexes)
   | _ -> ()
 
 let hexs (l : coq_N list) : string = S.concat "," (L.map hex_of_n l)
@@ -114,6 +138,11 @@ let run (fn : string) (bs : coq_N list) (arg : int) : string * string =
   | "hevc.GetParameterSetsFromByteStream" ->
     show1 (fun ((v, s), p) -> nalus_string v ^ ";" ^ nalus_string s ^ ";" ^ nalus_string p)
       (C14Model.hevc_get_parameter_sets_from_byte_stream bs)
+  | "avc.ParseSEINalu" ->
+    sei_result (C16SeiNaluModel.avc_parse_sei_nalu (C16SeiNaluModel.avc_pt_of_sps (nth_opt !ctx_sps (arg - 1))) bs)
+  | "hevc.ParseSEINalu" ->
+    let ctx = match nth_opt !ctx_hevcpt (arg - 1) with Some c -> c | None -> None in
+    sei_result (C16SeiNaluModel.hevc_parse_sei_nalu ctx bs)
   | "avc.GetSliceTypeFromNALU" -> show1 hex_of_n (get_slice_type bs)
   | "avc.ParsePSAndSlice" ->
     let (a, b, rest) = split3 bs in
